@@ -45,6 +45,19 @@ func (v *violations) result() string {
 	return "violation: " + v.first
 }
 
+// waitOrTimeout waits for the group; false = some goroutine did not come back in time (a
+// spinning or blocked call: the goroutines are abandoned)
+func waitOrTimeout(wg *sync.WaitGroup, d time.Duration) bool {
+	done := make(chan struct{})
+	go func() { wg.Wait(); close(done) }()
+	select {
+	case <-done:
+		return true
+	case <-time.After(d):
+		return false
+	}
+}
+
 // DNSStress: goroutines look up overlapping hosts in one cache of the given size while entries
 // expire (short lifetime), get evicted and get deleted through the DialContext retry path.
 func DNSStress(seed int64, size, goroutines, iterations int, lifetime time.Duration) string {
@@ -79,7 +92,7 @@ func DNSStress(seed int64, size, goroutines, iterations int, lifetime time.Durat
 			defer wg.Done()
 			r := rand.New(rand.NewSource(seed*1000 + int64(g)))
 			for i := 0; i < iterations; i++ {
-				host := fmt.Sprintf("host%d", r.Intn(size+3))
+				host := fmt.Sprintf("host%d", r.Intn(LimitOf(size)+3))
 				if closedPort != "" && r.Intn(40) == 0 {
 					// every dial fails: a cached entry is deleted and looked up again
 					ctx, cancel := context.WithTimeout(context.Background(), time.Second)
@@ -107,14 +120,28 @@ func DNSStress(seed int64, size, goroutines, iterations int, lifetime time.Durat
 						}
 					}
 				}
-				if n := cache.VerifLen(); n > size {
+				limit := size
+				if limit < 0 {
+					limit = 0
+				}
+				if n := cache.VerifLen(); n > limit {
 					v.add("cache holds %d entries, configured size %d", n, size)
 				}
 			}
 		}(g)
 	}
-	wg.Wait()
+	if !waitOrTimeout(&wg, 10*time.Second) {
+		v.add("timeout: lookups on a cache of size %d did not return (lock held by a spinning call?)", size)
+	}
 	return v.result()
+}
+
+// LimitOf is the number of entries a cache of that configured size may hold.
+func LimitOf(size int) int {
+	if size < 0 {
+		return 0
+	}
+	return size
 }
 
 func closedLoopbackPort() string {
@@ -512,6 +539,15 @@ func callAccessors(ev gomatrixserverlib.PDU, start int) []string {
 		},
 		func() string { return fmt.Sprint("IsSticky=", ev.IsSticky(now, now)) },
 		func() string { return fmt.Sprint("StickyEndTime=", ev.StickyEndTime(now).Unix()) },
+		// SetUnsigned leaves its receiver alone and returns a copy: for the shared event it is a
+		// read-only operation (callers derive per-client copies of cached events this way)
+		func() string {
+			cp, err := ev.SetUnsigned(map[string]interface{}{"age": 5})
+			if err != nil {
+				return "SetUnsigned=err"
+			}
+			return "SetUnsigned=" + cp.EventID() + " " + string(cp.Unsigned())
+		},
 	}
 	out := make([]string, len(fns))
 	for k := range fns {
@@ -525,11 +561,12 @@ func callAccessors(ev gomatrixserverlib.PDU, start int) []string {
 // several goroutines at once, on freshly parsed events of every event class (eventV1, eventV2,
 // eventV3 incl. the v12 create event) and kind. All goroutines must see the same values; under
 // the race detector any unsynchronised memoisation inside an accessor is reported.
-// (Redact and SetUnsignedField mutate; SetUnsigned and Sign copy the whole event: not accessors.)
+// SetUnsigned (returns a copy, receiver untouched) is included; Redact, SetUnsignedField and
+// Sign write to their receiver (Sign returns the receiver itself): not read-only.
 func EventStress(goroutines int) string {
 	var v violations
 	parsed := 0
-	for round := 0; round < 12; round++ {
+	for round := 0; round < 40; round++ {
 		for _, smp := range accessorSamples(round) {
 			ver, err := gomatrixserverlib.GetRoomVersion(gomatrixserverlib.RoomVersion(smp.Ver))
 			if err != nil {
@@ -557,7 +594,9 @@ func EventStress(goroutines int) string {
 				}(g)
 			}
 			close(start)
-			wg.Wait()
+			if !waitOrTimeout(&wg, 10*time.Second) {
+				return "violation: timeout: " + smp.Label + ": an accessor did not return (goroutine spinning?)"
+			}
 			for g := 1; g < goroutines; g++ {
 				for i := range results[0] {
 					if results[g] != nil && results[0] != nil && results[g][i] != results[0][i] {
